@@ -1,7 +1,7 @@
 """C17: user-defined primitives obey the extension contract; checkpoint is transparent."""
 from harness import common as C
 
-FILES = ["Operators/Extend.v", "Operators/Run17.v", "Props/C17.v"]
+FILES = ["Operators/Extend.v", "Operators/ExtendTie.v", "Operators/Run17.v", "Props/C17.v"]
 RULE = ("generated primitives of arity 1..5 registered through defvjp (positional makers, None entries, argnums= incl. "
         "permutations and duplicates), defvjp_argnum, defvjp_argnums, defjvp ('same'/None/callable), def_linear; "
         "every case differentiates a random non-empty subset of positions; each rule multiplies by a distinct prime "
@@ -81,7 +81,7 @@ def replay(rp):
     return 1
 
 
-TECHNIQUE = "Coq theorems on the routing tables of defvjp/defjvp (all arities, all subsets, three code paths) + exact correspondence with generated logging primitives; checkpoint by exact comparison on the implementation"
+TECHNIQUE = "Coq theorems on the routing tables of defvjp/defjvp (all arities, all subsets, three code paths) + exact correspondence with generated logging primitives; checkpoint by exact comparison on the implementation; the routing model proved equal to what is translated from core.defvjp on every run (gen/GenExtend.v)"
 DESIGN_REF = "DESIGN.md 4.17"
 LEVEL_TEXT = ("Proved: routing of every registration API for every arity and list of differentiated positions (rule / zeros / raise). "
               "Tied: what the rules are called with, two-level trace assignments, checkpoint transparency (implementation oracle).")
